@@ -32,11 +32,11 @@ func init() {
 		Exhaustive: true,
 		Rule: "artefacts: sealed tokens of both types (DAG-CBOR and DAG-JSON) and containers in the four formats (quick: 12 artefacts <=1.5 kB; thorough: 200 incl. 40-token containers). " +
 			"Read side, for every *Reader function: chunkings (1-byte, half, data-with-EOF, random) must give the tokens and CIDs of the in-memory decode; fault enumeration at EVERY byte offset k (incl. k=len): the reader fails at k as (0,err) and as (n>0,err), and the stream is cut at k - the call must return an error, never a token / CID / reader, except a CAR stream cut exactly between two sections (boundaries computed by the harness's own CAR splitter), which must yield exactly the blocks before the cut. " +
-			"Write side, for ToSealedWriter, ToDagCborWriter, ToDagJsonWriter, EncodeWriter and the four container writers: a counting sink measures the N Write calls of the fault-free run (bytes == buffered call for deterministic signatures, CID == hash of the bytes written), then EVERY call index 0..N-1 fails in turn (incl. the final flush): the call must return an error. " +
+			"Write side, for ToSealedWriter, ToDagCborWriter, ToDagJsonWriter, EncodeWriter and the four container writers: a counting sink measures the N Write calls of the fault-free run (bytes == buffered call for deterministic signatures, CID == hash of the bytes written), then EVERY call index 0..N-1 fails in turn (incl. the final flush), once as (0, err) and once as a short write (n>0, err): the call must return an error. " +
 			"non-trivial = fault position strictly inside the artefact; distinct = (artefact, API, fault kind, position).",
 		Assumptions: []string{
 			"CAR section boundaries from ref.SplitCAR; for base64 CAR a cut is legitimate only where the decoded prefix ends on a section boundary",
-			"write faults return (0, err); short writes without error (an io.Writer contract violation) are not injected",
+			"write faults return (0, err) or (n>0, err); short writes without error (an io.Writer contract violation) are not injected",
 		},
 		Shards:      shards(8, 16),
 		Run:         runC18,
@@ -183,7 +183,10 @@ func c18ReadAPIs() []readAPI {
 	for _, k := range []string{"sealed-dlg", "sealed-inv"} {
 		out = append(out,
 			readAPI{"token.FromSealedReader", k, func(r io.Reader) readResult { t, c, err := token.FromSealedReader(r); return tokRes(t, c, err, true) }},
-			readAPI{"token.FromDagCborReader", k, func(r io.Reader) readResult { t, err := token.FromDagCborReader(r); return tokRes(t, cid.Undef, err, false) }},
+			readAPI{"token.FromDagCborReader", k, func(r io.Reader) readResult {
+				t, err := token.FromDagCborReader(r)
+				return tokRes(t, cid.Undef, err, false)
+			}},
 			readAPI{"token.DecodeReader", k, func(r io.Reader) readResult {
 				t, err := token.DecodeReader(r, dagcbor.Decode)
 				return tokRes(t, cid.Undef, err, false)
@@ -204,7 +207,10 @@ func c18ReadAPIs() []readAPI {
 	)
 	for _, k := range []string{"json-dlg", "json-inv"} {
 		out = append(out,
-			readAPI{"token.FromDagJsonReader", k, func(r io.Reader) readResult { t, err := token.FromDagJsonReader(r); return tokRes(t, cid.Undef, err, false) }},
+			readAPI{"token.FromDagJsonReader", k, func(r io.Reader) readResult {
+				t, err := token.FromDagJsonReader(r)
+				return tokRes(t, cid.Undef, err, false)
+			}},
 			readAPI{"token.DecodeReader(json)", k, func(r io.Reader) readResult {
 				t, err := token.DecodeReader(r, dagjson.Decode)
 				return tokRes(t, cid.Undef, err, false)
@@ -499,10 +505,11 @@ func faultPlace(k, n int) string {
 }
 
 type faultWriter struct {
-	buf    bytes.Buffer
-	calls  int
-	failAt int // -1: never
-	fired  bool
+	buf     bytes.Buffer
+	calls   int
+	failAt  int // -1: never
+	fired   bool
+	partial bool
 }
 
 func (f *faultWriter) Write(p []byte) (int, error) {
@@ -510,6 +517,11 @@ func (f *faultWriter) Write(p []byte) (int, error) {
 	f.calls++
 	if i == f.failAt {
 		f.fired = true
+		if f.partial && len(p) > 1 {
+			// a short write together with the error
+			n, _ := f.buf.Write(p[:len(p)/2])
+			return n, errInjected
+		}
 		return 0, errInjected
 	}
 	return f.buf.Write(p)
@@ -540,8 +552,9 @@ func c18WriteFaults(w *mon.W, api, desc string, refBytes []byte, f func(io.Write
 		}
 	}
 	n := clean.calls
-	for i := 0; i < n; i++ {
-		fw := &faultWriter{failAt: i}
+	for i := 0; i < 2*n; i++ {
+		fw := &faultWriter{failAt: i % n, partial: i >= n}
+		i := i % n
 		c, err := f(fw)
 		w.Eval(1)
 		if !fw.fired {
